@@ -168,6 +168,13 @@ def explore_run(ctx, cfg, F, f, RC17, RC07):
                 if not cleared:
                     problems.setdefault(("STOP-DROP-FIRST", "ack-before-drop", ""), b)
             elif name in UNWRAPS:
+                if stopping:
+                    # stopping only lets go of things; the one thing it may insist on is the acknowledgement.  Acquiring something new here
+                    # (a fresh receiver set, ...) and unwrapping it can panic the router before the ack, e.g. when descriptors are exhausted
+                    rs = tr.roots_of_operand(t["args"][0])
+                    if not rs or not all(r.kind == "call" and r.id == "crossbeam_channel::Sender::send" for r in rs):
+                        src = sorted(r.id for r in rs if r.kind == "call")
+                        problems.setdefault(("STOP-NOPANIC", "unwrap-while-stopping", (src[0] if src else "value").split("::")[-1]), b)
                 # unwrap of a handler-table lookup needs the wake-up id excluded
                 for r in tr.roots_of_operand(t["args"][0]):
                     if r.kind == "call" and r.id in ("std::collections::HashMap::remove", "std::collections::HashMap::get_mut", "std::collections::HashMap::get"):
@@ -282,6 +289,9 @@ def rules_run(ctx, cfg, F, want):
                                    "after %s the router reaches another %s instead of returning" % (k[1], k[2]), f.path, loc(b), config=cfg)
                 elif k[0] == "STOP-DROP-FIRST":
                     R_drop.violate("%s:ack-before-handlers-dropped" % f.path, "the shutdown acknowledgement is sent while registered handlers are still alive", f.path, loc(b), config=cfg)
+                elif k[1] == "unwrap-while-stopping":
+                    R_np.violate("%s:%s:%s" % (f.path, k[1], k[2]), "while stopping, the router unwraps the result of %s: if that fails the router thread panics before acknowledging and shutdown() panics with it" % k[2],
+                                 f.path, loc(b), config=cfg)
                 else:
                     R_np.violate("%s:%s:%s" % (f.path, k[1], k[2]), "%s on the %s arm can be reached with the wake-up id, for which the table has no entry (panics the router thread)" % (k[1], k[2]),
                                  f.path, loc(b), config=cfg)
@@ -393,31 +403,27 @@ def rule_stop_flag(ctx, cfg, F):
         # routing helpers that only delegate to add_route have no send of their own
         n += 1
         tr = Tracer(f)
-        flag_switch = None
+        flag_switch, stopped_targets = None, []
+        stopped = _stopped_value(F)
         for b in sorted(f.live_blocks()):
             t = f.term(b)
             if t["t"] != "switch":
                 continue
-            for s in f.succ(b):
-                for lab in edge_label(f, b, s):
-                    if lab["kind"] in ("val", "val_not"):
-                        names = [e["n"] for e in lab["place"].get("p", []) if isinstance(e, dict) and "f" in e]
-                        roots = tr.roots(lab["place"]["l"])
-                        via_lock = any(r.kind == "param" and r.id == 1 for r in roots)
-                        ty = _place_type(f, lab["place"])
-                        if via_lock and (names or True) and ty == "bool":
-                            flag_switch = b
+            edges = _state_edges(F, f, tr, b)
+            if edges is not None:
+                flag_switch = b
+                stopped_targets = [s_ for s_, v in edges if v is not None and stopped is not None and v == stopped[1]]
         if flag_switch is None:
             R.violate("%s:no-flag-test" % f.path, "%s sends to the router without testing the shutdown flag" % f.path, f.path, f.loc(0), config=cfg)
             continue
         if not all(f.dominates(flag_switch, s) for s in sends):
             R.violate("%s:flag-test-does-not-dominate-send" % f.path, "a send to the router is reachable without passing the shutdown-flag test", f.path, f.loc(flag_switch), config=cfg)
             continue
-        # true edge: no send reachable
-        t = f.term(flag_switch)
-        true_target = t["otherwise"]
-        reach = f.reachable(true_target)
-        if any(s in reach for s in sends):
+        # stopped edge: no send reachable
+        if not stopped_targets:
+            R.violate("%s:no-flag-test" % f.path, "%s tests the proxy state but no edge stands for `already shut down` (%s)" % (f.path, stopped), f.path, f.loc(flag_switch), config=cfg)
+            continue
+        if any(s in f.reachable(tt) for tt in stopped_targets for s in sends):
             R.violate("%s:flag-set-still-sends" % f.path, "with the shutdown flag set %s still sends to the router" % f.path, f.path, f.loc(flag_switch), config=cfg)
             continue
         # guard held: the MutexGuard local is dropped only after the last send
@@ -428,8 +434,7 @@ def rule_stop_flag(ctx, cfg, F):
             continue
         # the function that sets the flag also waits for the acknowledgement: that wait must happen under the guard too,
         # otherwise a concurrent second shutdown() sees the flag and returns while the router is still running
-        sets_flag = any(st["s"] == "assign" and st["lhs"].get("p") and _place_type(f, st["lhs"]) == "bool" and op_const(st["rv"]["a"][0]) == 1
-                        for b in f.live_blocks() for st in f.stmts(b) if st["s"] == "assign" and st["rv"]["r"] == "use")
+        sets_flag = any(_stores_state(F, f, st) == stopped for b in f.live_blocks() for st in f.stmts(b)) if stopped is not None else False
         if sets_flag:
             waits = [b for b, t in f.calls() if strip_generics(callee_name(t)) == "crossbeam_channel::Receiver::recv" and "()" in " ".join(t.get("generics", []))]
             # closure form: Result::map(wakeup result, closure that sends and waits)
@@ -453,6 +458,70 @@ def rule_stop_flag(ctx, cfg, F):
     R.count("proxy_senders[%s]" % cfg, n)
 
 
+def _is_state_type(F, ty):
+    """the proxy's stopped-or-not state: a bool, or a private enum without payloads (Running / ShutDown)"""
+    if ty == "bool":
+        return True
+    a = F.adts.get(ty)
+    return bool(a) and ty.startswith("router::") and len(a["variants"]) >= 2 and all(not v["fields"] for v in a["variants"])
+
+
+def _stores_state(F, f, st):
+    """(type, value) when the statement writes the state field behind the lock: `comm.shutdown = true`, `comm.state = ProxyState::ShutDown`"""
+    if st["s"] != "assign" or not st["lhs"].get("p"):
+        return None
+    ty = _place_type(f, st["lhs"])
+    if not _is_state_type(F, ty):
+        return None
+    rv = st["rv"]
+    if ty == "bool":
+        return (ty, op_const(rv["a"][0])) if rv["r"] == "use" and op_const(rv["a"][0]) is not None else None
+    if rv["r"] == "agg" and rv["kind"].get("adt") == ty:
+        return (ty, rv["kind"]["variant"])
+    if rv["r"] == "use" and rv["a"][0].get("pvariant"):
+        return (ty, rv["a"][0]["pvariant"])
+    if rv["r"] == "use" and op_local(rv["a"][0]) is not None:
+        # `comm.state = move _tmp` with `_tmp = ProxyState::ShutDown`
+        ds = [d for d in f.defs().get(op_local(rv["a"][0]), []) if d[1] is not None and not f.is_cleanup(d[0])]
+        if len(ds) == 1 and ds[0][2]["rv"]["r"] == "agg" and ds[0][2]["rv"]["kind"].get("adt") == ty:
+            return (ty, ds[0][2]["rv"]["kind"]["variant"])
+    return None
+
+
+def _stopped_value(F):
+    """the value the stopping entry point writes: the only state store in the proxy's functions that is not the initial value"""
+    vals = set()
+    for g in _proxy_fns(F):
+        for b in g.live_blocks():
+            for st in g.stmts(b):
+                v = _stores_state(F, g, st)
+                if v is not None and v[1] not in (0, False):
+                    vals.add(v)
+    return next(iter(vals)) if len(vals) == 1 else None
+
+
+def _state_edges(F, f, tr, b):
+    """for a switch on the state field read through the lock guard: [(successor, state value the edge implies or None)]; None when the switch is on something else"""
+    out, hit = [], False
+    for s in f.succ(b):
+        val = None
+        for lab in edge_label(f, b, s):
+            if lab["kind"] not in ("val", "val_not", "variant", "variant_not") or "place" not in lab:
+                continue
+            ty = _place_type(f, lab["place"]) if lab["kind"] in ("val", "val_not") else (lab.get("adt") or "")
+            if not _is_state_type(F, ty) or not any(r.kind == "param" and r.id == 1 for r in tr.roots(lab["place"]["l"])):
+                continue
+            hit = True
+            if lab["kind"] == "val":
+                val = lab["value"]
+            elif lab["kind"] == "val_not":
+                val = 1 if list(lab.get("not", [])) == [0] else (0 if list(lab.get("not", [])) == [1] else None)
+            else:
+                val = lab.get("variant") if lab.get("variant") and "|" not in lab["variant"] else None
+        out.append((s, val))
+    return out if hit else None
+
+
 def _place_type(f, pl):
     projs = [e for e in pl.get("p", []) if isinstance(e, dict) and "f" in e]
     if projs:
@@ -472,6 +541,13 @@ def rule_forward_closure(ctx, cfg, F):
                 R.ok("%s: one crossbeam send on every normal path" % f.path, f.loc(sends[0]), cfg)
             else:
                 R.violate("%s:forward-count" % f.path, "forwarding closure does not send exactly once per message (%d send sites)" % len(sends), f.path, f.loc(0), config=cfg)
+            # the closure runs on the router thread: a consumer that dropped its crossbeam receiver must not take every other route down with a panic
+            trf = Tracer(f)
+            for b2, t2 in f.calls():
+                if strip_generics(callee_name(t2)) in ("std::result::Result::unwrap", "std::result::Result::expect", "std::result::Result::unwrap_err", "std::result::Result::expect_err") and t2["args"]:
+                    if any(r.kind == "call" and r.block in sends for r in trf.roots_of_operand(t2["args"][0])):
+                        R.violate("%s:forward-send-unwrapped" % f.path, "the result of the crossbeam send is unwrapped on the router thread: a consumer that went away panics the router and every other route dies with it",
+                                  f.path, f.loc(b2), config=cfg)
     R.count("forward_closures[%s]" % cfg, n)
     # the forwarding closure runs on the single router thread: the queue it forwards into must never make it wait
     for f in sorted(F.fns.values(), key=lambda x: x.path):
